@@ -1,6 +1,8 @@
 (* C11 - I/O failures during merge, compaction and flush are reported, never absorbed.
    Only the property theorems (closed by exact) and their assumptions. *)
 From GoSST Require Import Base.Bytes Struct.Heap SST.Merge SST.MergeFacts.
+From GoSST Require Import Fs.OrderFacts.
+From GoSSTGen Require Import FactsCode.
 Local Open Scope N_scope.
 
 (* a failing read of ANY input record makes both merges fail, whatever the writer does *)
@@ -10,6 +12,12 @@ Theorem C11_merge_reports_input_fault :
   (exists e, snd (merge w inputs s) = Err e)
   /\ (forall reduce, exists e, snd (merge_compact reduce w inputs s) = Err e).
 Proof. exact @merge_reports_input_fault. Qed.
+(* an incomplete merged table is never declared successful: in the source the merge and the Close of the
+   merged table (whose error is checked) come before the success flag is written; re-read on every run *)
+Theorem C11_success_flag_after_close :
+  compaction_merge_before_flag = Some true /\ compaction_writer_closed_before_flag = Some true.
+Proof. pose proof order_facts as H; split; apply H. Qed.
+
 Print Assumptions C11_merge_reports_input_fault.
 
 (* MergeCompact = feed the merged sequence to the writer, stop at its first error: a failed write
@@ -28,3 +36,4 @@ Theorem C11_merge_is_feed_disjoint :
   merge w (map as_stream tables) s = feed w s (union_latest tables).
 Proof. exact @merge_disjoint_union. Qed.
 Print Assumptions C11_merge_is_feed_disjoint.
+Print Assumptions C11_success_flag_after_close.
